@@ -320,7 +320,8 @@ def judge_units(d):
         elif kind in ("cov-dilation", "cov-closing"):
             f = pipe.dilation if kind == "cov-dilation" else pipe.closing
             r_px = d["px"] * d["sign"]
-            mask = make_mask(d["seed"], margin=int(math.ceil(abs(d["px"]))) + 2)
+            # d["touch"]: the mask may reach the faces of the box (a mask cut by the box is still a mask)
+            mask = make_mask(d["seed"], margin=0 if d.get("touch") else int(math.ceil(abs(d["px"]))) + 2)
             a = f(r_px * scale)(mask, scale)
             b = f(r_px * scale * lam)(mask, scale * lam)
             if not np.array_equal(np.asarray(a, bool), np.asarray(b, bool)):
@@ -439,9 +440,10 @@ def judge_units(d):
 def make_mask(seed, margin):
     a = gen.smooth_noise(seed, (20, 20, 20), sigma=1.5)
     m = a > 0.3
-    core = np.zeros_like(m)
-    core[margin:-margin, margin:-margin, margin:-margin] = True
-    m &= core
+    if margin > 0:
+        core = np.zeros_like(m)
+        core[margin:-margin, margin:-margin, margin:-margin] = True
+        m &= core
     if not m.any():
         m[10, 10, 10] = True
     return m
@@ -561,7 +563,7 @@ def tie_cases(draw):
 
 @st.composite
 def unit_cases(draw):
-    kind = draw(st.sampled_from(["cov-gaussian_filter", "cov-shift", "cov-dilation", "cov-closing", "smooth", "gaussian", "gaussian", "rescale", "curry"]))
+    kind = draw(st.sampled_from(["cov-gaussian_filter", "cov-shift", "cov-dilation", "cov-closing", "cov-closing", "smooth", "gaussian", "gaussian", "rescale", "curry"]))
     d = {"kind": kind, "scale": draw(nice_scales), "lam": draw(st.sampled_from([1.0, 0.5, 2.0, 1.7, 0.3, 3.0])), "seed": draw(gen.seeds)}
     if kind == "cov-gaussian_filter":
         # kernel radius int(4 sigma + 0.5): keep 4*sigma + 0.5 at least 0.05 from an integer
@@ -571,6 +573,7 @@ def unit_cases(draw):
     elif kind in ("cov-dilation", "cov-closing"):
         d["px"] = draw(st.sampled_from([0.4, 0.9, 1.3, 1.7, 2.4, 2.8]))
         d["sign"] = draw(st.sampled_from([1, -1]))
+        d["touch"] = draw(st.sampled_from([True, True, False]))
     elif kind == "smooth":
         d["px"] = draw(st.sampled_from([0.6, 1.0, 1.8, 2.5]))
         d["rpx"] = draw(st.sampled_from([0.5, 1.4, 2.3, -1.4]))
